@@ -21,7 +21,7 @@ func init() {
 		Assumptions: []string{"sync.RWMutex semantics", "maps.Clone returns a fresh map"},
 		Rules: []Rule{
 			{ID: "C19.R1", Min: 30, Desc: "tables only under mu; snapshot iteration", Fn: c19Tables},
-			{ID: "C19.R2", Min: 4, Desc: "indexes updated together", Fn: c19Indexes},
+			{ID: "C19.R2", Min: 8, Desc: "indexes updated together; whole entries deleted only when empty", Fn: c19Indexes},
 			{ID: "C19.R3", Min: 3, Desc: "fan-out: own type key, each snapshot element told exactly once with the event", Fn: c19Fanout},
 			{ID: "C19.R5", Min: 2, Desc: "unsubscribe-all on termination, not on restart", Fn: c19Lifecycle},
 		},
@@ -197,6 +197,62 @@ func c19Indexes(p *Program, r *Report) {
 		}
 		check(a, b, es.ByType.Name(), es.ByPath.Name())
 		check(b, a, es.ByPath.Name(), es.ByType.Name())
+	}
+	// whole-entry deletes: an outer delete(T, k) drops every inner entry of k at once. It is allowed only on an edge asserting
+	// that T[k] (same table, same key) is empty, or after a loop over T[k] that removes the mirrored entries one by one
+	// (UnsubscribeAll). Guarding it by the emptiness of the OTHER index's entry silently drops live subscriptions from one
+	// index while they stay in the other.
+	for _, fn := range p.methodsOf(es.T) {
+		if fn.Parent() != nil {
+			continue
+		}
+		g := p.ig(fn)
+		for _, tbl := range []*types.Var{es.ByType, es.ByPath} {
+			for _, w := range p.tableWrites(fn, tbl) {
+				if w.kind != "delete-outer" {
+					continue
+				}
+				n++
+				del := w.in.(*ssa.Call)
+				key := del.Call.Args[1]
+				sameEntry := func(v ssa.Value) bool {
+					// v is T[key] for the same table and key
+					lk, ok := strip(v).(*ssa.Lookup)
+					if !ok {
+						if ex, isEx := strip(v).(*ssa.Extract); isEx {
+							lk, ok = ex.Tuple.(*ssa.Lookup)
+						}
+					}
+					if !ok {
+						return false
+					}
+					f, _ := fieldLoad(lk.X)
+					return f == tbl && sameValue(lk.Index, key)
+				}
+				empty := g.edgesWhere(func(f cmpFact) bool {
+					if f.Y != nil || f.IsNil || !(f.impliesEq(0) || notPositive(f)) {
+						return false
+					}
+					c, ok := strip(f.X).(*ssa.Call)
+					if !ok {
+						return false
+					}
+					b, ok := c.Call.Value.(*ssa.Builtin)
+					return ok && b.Name() == "len" && sameEntry(c.Call.Args[0])
+				})
+				okDel := len(empty) > 0 && g.DominatedByEdges(w.node, empty)
+				if !okDel {
+					// after a complete loop over the same entry
+					for i, in := range g.Nodes {
+						if rg, isR := in.(*ssa.Range); isR && sameEntry(rg.X) && g.DominatedByNodes(w.node, setOf(i)) {
+							okDel = true
+						}
+					}
+				}
+				r.Check(okDel, fmt.Sprintf("%s whole-entry delete in %s", tbl.Name(), fnName(fn)), del.Pos(),
+					"delete(table, key) is dominated by an edge asserting len(table[key]) == 0 for the same table and key, or follows a loop over table[key] that removes the mirrored entries: a whole entry is never dropped while it still records subscriptions")
+			}
+		}
 	}
 	if n == 0 {
 		r.Unresolved("no index mutation found in the event stream")
